@@ -328,11 +328,8 @@ impl ValueExpr for FunctionCallExpr {
                         )
                         .unwrap()
                     }
-                    LhsValue::Array(mut arr) => {
-                        if !arr.is_empty() {
-                            arr = arr.filter_map_to(return_type, |elem| call(&mut f(elem)));
-                        }
-                        arr
+                    LhsValue::Array(arr) => {
+                        arr.filter_map_to(return_type, |elem| call(&mut f(elem)))
                     }
                     _ => unreachable!(),
                 };
